@@ -39,9 +39,10 @@ func cliCase(f []string) string {
 	defer os.RemoveAll(dir)
 	args := []string{}
 	if c.path != "" {
-		if strings.ContainsAny(c.path, "/\x00") {
+		if strings.ContainsAny(c.path, "\x00") || strings.HasPrefix(c.path, "/") || strings.Contains(c.path, "..") {
 			return "CLISKIP path"
 		}
+		os.MkdirAll(filepath.Dir(filepath.Join(dir, c.path)), 0755)
 		if err := ioutil.WriteFile(filepath.Join(dir, c.path), []byte(src), 0644); err != nil {
 			return "CLISKIP write"
 		}
